@@ -582,9 +582,10 @@ def selftest_numeric(run: Run) -> None:
         expect.append(('C', 'T' if math.isclose(a, b, rel_tol=1e-7, abs_tol=0.0) else 'F'))
     for _ in range(run.scale(300, 3000)):
         # the model's `_year` (C11's calendar) against Python's datetime and the library's Date10._year
-        d = pydt.datetime(rng.randrange(1, 10000), 1, 1) + pydt.timedelta(
-            seconds=rng.choice([0, 1, -1, 86399, 86400]) + 86400 * rng.choice([0, 0, 58, 59, 60, 364, 365]))
-        if not (1 <= d.year <= 9999):
+        try:
+            d = pydt.datetime(rng.randrange(1, 10000), 1, 1) + pydt.timedelta(
+                seconds=rng.choice([0, 1, -1, 86399, 86400]) + 86400 * rng.choice([0, 0, 58, 59, 60, 364, 365]))
+        except OverflowError:
             continue
         lines.append(f'k=Y t={int((d - pydt.datetime(1, 1, 1)).total_seconds())}')
         expect.append(('Y', str(d.year)))
@@ -732,7 +733,7 @@ def body(run: Run) -> int:
     run.assumptions += [
         'untypedAtomic / node string values are drawn from a declared lexical fragment (plain decimal literals, NaN, '
         'INF, -INF, true/false, words); outside it the driver answers UNSUPPORTED and the case is skipped (counted)',
-        'dates/times: years 1..9999, explicit timezone optional (missing = UTC: no implicit timezone is set in the context; C11 finding F11n), payload = (local seconds, offset); the local year is computed in the model by the calendar of C11's specification and cross-checked against Python datetime on every run',
+        'dates/times: years 1..9999, explicit timezone optional (missing = UTC: no implicit timezone is set in the context; C11 finding F11n), payload = (local seconds, offset); the local year is computed in the model by the calendar of the C11 specification and cross-checked against Python datetime on every run',
         'durations have whole seconds; xs:float values are binary32-representable',
         'default collation = Unicode codepoint collation']
     run.stats.extra['tables'] = translate_tables(run)
